@@ -1,175 +1,11 @@
 """C13 - documented spelling variants of the same program assemble to identical bytes (structural clauses)."""
 import ast
-import re
-import re._parser as sre_parse
-import re._constants as sre
 
 from ..core import Report, Finding, AnalysisError
 from ..facts import Facts
-from ..astutil import unparse, dotted, walk_no_nested, fold, NotConstant
-from .. import encprops, oracle
+from .. import encprops, lexrules
 
 LEVEL = 'other'
-
-
-def regex_ast(pattern):
-    try:
-        return sre_parse.parse(pattern)
-    except re.error as e:
-        raise AnalysisError('regular expression {!r} does not parse: {}'.format(pattern, e))
-
-
-def separator_class(tree):
-    """For a pattern of the shape (class)+ return the set of class items; None otherwise."""
-    items = list(tree)
-    if len(items) != 1:
-        return None
-    op, av = items[0]
-    if op not in (sre.MAX_REPEAT, sre.MIN_REPEAT):
-        return None
-    lo, hi, sub = av
-    if lo != 1 or hi != sre.MAXREPEAT:
-        return None
-    sub = list(sub)
-    if len(sub) != 1:
-        return None
-    sop, sav = sub[0]
-    out = set()
-    if sop == sre.IN:
-        for iop, iav in sav:
-            out.add((str(iop), iav if not isinstance(iav, (list, tuple)) else tuple(iav)))
-        return out
-    if sop == sre.SUBPATTERN:
-        inner = list(sav[3])
-        if len(inner) == 1 and inner[0][0] == sre.BRANCH:
-            for alt in inner[0][1][1]:
-                alt = list(alt)
-                if len(alt) != 1:
-                    return None
-                if alt[0][0] == sre.IN:
-                    for iop, iav in alt[0][1]:
-                        out.add((str(iop), iav))
-                else:
-                    out.add((str(alt[0][0]), alt[0][1]))
-            return out
-    if sop in (sre.LITERAL,):
-        return {(str(sop), sav)}
-    return None
-
-
-def is_comment_pattern(tree):
-    """'#' followed by anything to the end of the line."""
-    items = list(tree)
-    if len(items) < 2:
-        return False
-    if items[0] != (sre.LITERAL, ord('#')):
-        return False
-    op, av = items[1]
-    if op != sre.MAX_REPEAT or av[0] != 0 or av[1] != sre.MAXREPEAT:
-        return False
-    sub = list(av[2])
-    if len(sub) != 1 or sub[0][0] != sre.ANY:
-        return False
-    rest = items[2:]
-    return all(r[0] == sre.AT and r[1] in (sre.AT_END, sre.AT_END_STRING) for r in rest)
-
-
-def def_chain(fn, name, upto):
-    """Assignments to `name` in source order before statement `upto` (straight-line def-use chain)."""
-    out = []
-    for st in fn.body:
-        if st is upto:
-            break
-        for n in ast.walk(st):
-            if isinstance(n, ast.Assign) and isinstance(n.targets[0], ast.Name) and n.targets[0].id == name:
-                out.append(n)
-    return out
-
-
-def check_lexer(rep, facts):
-    fn = facts.funcs.get('lex_tokens')
-    if fn is None:
-        raise AnalysisError('anchor vanished: lex_tokens')
-    splits = [n for n in ast.walk(fn) if isinstance(n, ast.Call) and dotted(n.func) in ('re.split',)]
-    if len(splits) != 1:
-        raise AnalysisError('lex_tokens: expected exactly one re.split (found {}): the lexer left the shape the rules can follow'.format(len(splits)))
-    sp = splits[0]
-    try:
-        pat = fold(sp.args[0], facts.consts)
-    except NotConstant:
-        raise AnalysisError('lex_tokens: split pattern is not a literal')
-    cls = separator_class(regex_ast(pat))
-    want_space = ('CATEGORY', sre.CATEGORY_SPACE)
-    want_comma = ('LITERAL', ord(','))
-    ok = cls is not None and want_space in cls and want_comma in cls and all(
-        c in (want_space, want_comma) or (c[0] == 'LITERAL' and chr(c[1]).isspace()) for c in cls)
-    rep.check(ok, 'R13.3.separators', 'tokens are separated by one or more of: whitespace, comma',
-              lambda: Finding('R13.3.separators', 'lex_tokens', sp,
-                              'the token separator pattern {!r} does not consume exactly runs of whitespace and commas: `addi x1, x0, 1` and `addi x1 x0 1` no longer lex alike'.format(pat),
-                              line=sp.lineno))
-    # def-use chain from line.contents to the split argument
-    arg = sp.args[1] if len(sp.args) > 1 else None
-    if not isinstance(arg, ast.Name):
-        raise AnalysisError('lex_tokens: split subject is not a local name')
-    stmt = sp
-    while getattr(stmt, '_parent', None) is not fn:
-        stmt = stmt._parent
-    chain = def_chain(fn, arg.id, stmt)
-    steps = []
-    for a in chain:
-        v = a.value
-        if isinstance(v, ast.Call) and dotted(v.func) == 're.sub':
-            try:
-                p = fold(v.args[0], facts.consts)
-                repl = fold(v.args[1], facts.consts)
-            except NotConstant:
-                steps.append(('sub?', a))
-                continue
-            steps.append(('comment-strip' if is_comment_pattern(regex_ast(p)) and repl == '' else 'sub:' + p, a, unparse(v.args[2]) if len(v.args) > 2 else None))
-        elif isinstance(v, ast.Call) and isinstance(v.func, ast.Attribute) and v.func.attr == 'strip' and not v.args:
-            steps.append(('strip', a))
-        elif isinstance(v, ast.Call) and isinstance(v.func, ast.Attribute) and v.func.attr == 'replace':
-            steps.append(('replace', a))
-        else:
-            steps.append(('other:' + unparse(v)[:40], a))
-    kinds = [s[0] for s in steps]
-    rep.sample({'lexer_chain': kinds, 'separator_pattern': pat})
-    has_comment = 'comment-strip' in kinds
-    rep.check(has_comment and kinds.index('comment-strip') == 0 and steps[0][2] == 'line.contents', 'R13.4.comments',
-              'the comment (`#` to end of line) is removed from line.contents before anything else',
-              lambda: Finding('R13.4.comments', 'lex_tokens', steps[0][1] if steps else fn,
-                              'comments are not stripped first on the way from the line text to the token split (chain: {}): a trailing `# comment` would contribute tokens'.format(kinds),
-                              line=(steps[0][1].lineno if steps else fn.lineno)))
-    rep.check('strip' in kinds, 'R13.5.indent', 'leading / trailing whitespace is stripped before the split',
-              lambda: Finding('R13.5.indent', 'lex_tokens', sp, 'the line is not stripped before being split: indentation produces an empty first token', line=sp.lineno))
-    others = [k for k in kinds if k.startswith('other:') or k.startswith('sub')]
-    rep.check(not others, 'R13.3.separators', 'no other rewriting of the line text before the split',
-              lambda: Finding('R13.3.separators', 'lex_tokens', sp, 'the line text is rewritten by {} before tokenising'.format(others), line=sp.lineno), nontrivial=False)
-    # empty tokens removed / empty lines skipped
-    src = unparse(fn)
-    rep.check("while '' in tokens" in src or "if t" in src or "filter(" in src or "[t for t in" in src, 'R13.3.separators', 'empty tokens are dropped',
-              lambda: Finding('R13.3.separators', 'lex_tokens', sp, 'empty tokens produced by the split are kept', line=sp.lineno), nontrivial=False)
-    # the special-cased string / error lexing happens before the comment strip (documented: comments are part of the string)
-    return pat
-
-
-def check_reader(rep, facts):
-    fn = facts.funcs.get('read_lines')
-    loops = [n for n in ast.walk(fn) if isinstance(n, ast.For) and isinstance(n.iter, ast.Call) and dotted(n.iter.func) == 'enumerate']
-    if not loops:
-        raise AnalysisError('anchor vanished: enumerate loop of read_lines')
-    lp = loops[0]
-    it = lp.iter.args[0]
-    ok = isinstance(it, ast.Call) and isinstance(it.func, ast.Attribute) and it.func.attr == 'splitlines' and not it.args
-    rep.check(ok, 'R13.5.blank-lines', 'line numbers are taken from the unfiltered list of physical lines',
-              lambda: Finding('R13.5.blank-lines', 'read_lines', lp, 'line numbering is computed over a filtered line list: blank lines shift later numbers', line=lp.lineno))
-    skips = [n for n in lp.body if isinstance(n, ast.If) and any(isinstance(x, ast.Continue) for x in n.body) and 'strip()' in unparse(n.test)]
-    rep.check(bool(skips), 'R13.5.blank-lines', 'blank lines are skipped',
-              lambda: Finding('R13.5.blank-lines', 'read_lines', lp, 'blank lines are not skipped by the reader', line=lp.lineno), nontrivial=False)
-    asm = facts.funcs['assemble']
-    src = unparse(asm)
-    rep.check('if len(t) > 0' in src or 'if t' in src, 'R13.5.blank-lines', 'lines without tokens (comment-only) are dropped before parsing',
-              lambda: Finding('R13.5.blank-lines', 'assemble', asm, 'comment-only lines reach the parser', line=asm.lineno), nontrivial=False)
 
 
 def check_base_offset(rep, facts):
@@ -187,30 +23,54 @@ def check_base_offset(rep, facts):
               lambda: Finding('R13.2.base-offset', 'BASE_OFFSET_INSTRUCTIONS', 'extra', '{} are given the imm(reg) spelling although they have no base register + offset form'.format(extra), line=node.lineno), nontrivial=False)
 
 
-def run(repo, tier):
-    facts = Facts(repo.asm)
-    rep = Report('C13', LEVEL,
-                 'Structural clauses of spelling invariance: the REGISTERS table maps number, numeric string, xN and every ABI alias of '
-                 'register N to N (and nothing else); in each parse branch that accepts both, `imm(reg)` and `reg, imm` deliver the same '
-                 'roles to the same constructor parameters (token-provenance dataflow) and every load / store / jalr takes both spellings; the '
-                 'token separator, read from the regex AST, consumes exactly runs of whitespace and commas; on the def-use chain from the '
-                 'line text to the split the comment pattern is removed first and the text is stripped; blank lines are skipped without '
-                 'disturbing line numbering.')
-    rep.trusted_base = ['CPython ast and re._parser', 'bbverif.wiring token provenance']
-    rep.not_decided = ['equality of whole binaries under arbitrary combinations of rewrites, in particular the interaction of the special-cased string / error lexing '
-                       'with indentation and comments', 'integers spelled in forms only eval or only int(., 0) accepts']
-    encprops.check_registers(rep, facts, 'R13.1.registers')
+def calls_through_values(fn, facts):
+    """Calls in `fn` whose callee is a value (a local / loop variable, a table entry, the result of a call) rather than a
+    module-level function, class or builtin: the token-provenance engine does not see through them."""
+    local = lexrules.assigned_names(fn.body) | {a.arg for a in fn.args.posonlyargs + fn.args.args + fn.args.kwonlyargs}
+    out = []
+    for n in ast.walk(fn):
+        if not isinstance(n, ast.Call):
+            continue
+        f = n.func
+        if isinstance(f, ast.Name) and f.id in local and f.id not in facts.funcs and f.id not in facts.classes:
+            out.append(n)
+        elif isinstance(f, (ast.Subscript, ast.Call)):
+            out.append(n)
+    return out
+
+
+def absorb(rep, scratch):
+    for rule, instance, ok in scratch.obligations:
+        if ok:
+            rep.ok(rule, instance, (rule, instance) in scratch._nontrivial)
+    for f in scratch.findings:
+        rep.fail(f)
+    for o in scratch.obligations:
+        if not o[2] and o not in rep.obligations:
+            rep.obligations.append(o)
+    rep._nontrivial |= scratch._nontrivial
+    for k, v in scratch.analysed.items():
+        rep.count(k, v)
+    for x in scratch.samples:
+        rep.sample(x)
+    for x in scratch.notes:
+        rep.note(x)
+
+
+def shared_engine_rules(rep, repo, facts):
     doc = repo.text['docs/instruction_reference.rst']
-    encprops.check_wiring(rep, facts, 'R13.2.wiring', False, doc)
-    encprops.check_wiring(rep, facts, 'R13.2.wiring', True, doc)
-    check_base_offset(rep, facts)
-    check_lexer(rep, facts)
-    check_reader(rep, facts)
-    # lookup_register: hex / octal spellings through int(reg, base=0), then the table
-    lr = facts.funcs.get('lookup_register')
-    src = unparse(lr)
-    rep.check('int(reg, base=0)' in src or 'int(reg, 0)' in src, 'R13.1.registers', 'numeric register spellings in any base go through int(., 0)',
-              lambda: Finding('R13.1.registers', 'lookup_register', lr, 'hex / binary register numbers are no longer normalised before the table lookup', line=lr.lineno), nontrivial=False)
+    scratch = Report(rep.prop, rep.level, '')
+    encprops.check_wiring(scratch, facts, 'R13.2.wiring', False, doc)
+    encprops.check_wiring(scratch, facts, 'R13.2.wiring', True, doc)
+    if scratch.findings:
+        # a wiring finding is only a verdict about a parser the token-provenance engine has followed completely: a parse_item that
+        # hands over through values (dispatch table, parser callables) is outside it (the engine is shared; worked around here)
+        pi = facts.funcs.get('parse_item')
+        indirect = calls_through_values(pi, facts) if pi is not None else []
+        if indirect:
+            raise AnalysisError('parse_item dispatches through values (`{}`): the token-provenance rules R13.2.wiring do not follow '
+                                'it ({} would-be findings discarded)'.format(ast.unparse(indirect[0])[:60], len(scratch.findings)))
+    absorb(rep, scratch)
     # R13.6 decisions must not depend on how a register is spelled: predicates compare register *numbers*
     from ..comprel import CompRel
     rel = CompRel(facts)
@@ -222,6 +82,125 @@ def run(repo, tier):
                  instance=fac + ' ' + str(field))
     if not rel.raw_compares:
         rep.ok('R13.6.normalised', 'all {} compression predicates compare register numbers, not spellings'.format(len(rel.factories)))
+
+
+NUMERIC_SPELLINGS = ['0', '7', '42', '-1', '+5', '0x1c', '0x1C', '0X1C', '0X1c', '-0xC', '-0Xc', '0b101', '0B101', '-0b11', '0o17', '0O17', '1_000', '0x_ff',
+                     '00', '0x', '0b', '0b2', '0o8', '12a', 'abc', '', 'x1', '1.5', '--1', '0xg']
+
+
+def check_numeric_literal_test(rep, facts):
+    """R13.7: the helper that tells numbers from names (`is_int`, used for branch / jump targets and shift amounts) accepts every
+    spelling of an integer that int(text, 0) accepts - upper- and lower-case radix prefixes and digits alike - and nothing else.
+    Decided when it *is* int(text, 0) under a try, or a regular expression constant (matched, as a constant, against a fixed list
+    of spellings with the stdlib engine); anything else is not understood."""
+    import re as _re
+    import ast as _ast
+    fn = facts.funcs.get('is_int')
+    if fn is None:
+        return
+    from ..astutil import dotted, unparse
+    params = [a.arg for a in fn.args.args]
+    calls = [n for n in _ast.walk(fn) if isinstance(n, _ast.Call)]
+    ints = [c for c in calls if dotted(c.func) == 'int' and c.args and isinstance(c.args[0], _ast.Name) and c.args[0].id in params]
+    rep.count('numeric-literal tests analysed')
+    if ints:
+        for c in ints:
+            base = c.args[1] if len(c.args) > 1 else next((k.value for k in c.keywords if k.arg == 'base'), None)
+            ok = isinstance(base, _ast.Constant) and base.value == 0
+            rep.check(ok, 'R13.7.numeric-literals', 'is_int decides with int(text, 0)',
+                      lambda c=c: Finding('R13.7.numeric-literals', 'is_int', c, 'numbers are recognised with {}: hexadecimal / binary / octal spellings are not integers to it, so `beq t0, zero, 0x1c` is read as a label'.format(unparse(c)), line=c.lineno))
+        in_try = all(any(isinstance(p, _ast.Try) for p in parents_of_node(c)) for c in ints)
+        if not in_try:
+            raise AnalysisError('is_int: int(text, 0) is not under a try (failure mode not understood)')
+        return
+    # regular expression form
+    pat = None
+    flags = 0
+    for c in calls:
+        d = dotted(c.func)
+        node = None
+        if d in ('re.match', 're.fullmatch', 're.search') and len(c.args) >= 2:
+            node, how = c.args[0], d.split('.')[1]
+            fl = c.args[2] if len(c.args) > 2 else next((k.value for k in c.keywords if k.arg == 'flags'), None)
+        elif isinstance(c.func, _ast.Attribute) and c.func.attr in ('match', 'fullmatch', 'search') and isinstance(c.func.value, _ast.Name) \
+                and c.func.value.id in facts.assign_nodes:
+            comp = facts.assign_nodes[c.func.value.id].value
+            if isinstance(comp, _ast.Call) and dotted(comp.func) == 're.compile' and comp.args:
+                node, how = comp.args[0], c.func.attr
+                fl = comp.args[1] if len(comp.args) > 1 else next((k.value for k in comp.keywords if k.arg == 'flags'), None)
+        if node is not None and isinstance(node, _ast.Constant) and isinstance(node.value, str):
+            pat = (node.value, how, c)
+            if fl is not None:
+                names = {n.attr for n in _ast.walk(fl) if isinstance(n, _ast.Attribute)} | {n.id for n in _ast.walk(fl) if isinstance(n, _ast.Name)}
+                if names & {'IGNORECASE', 'I'}:
+                    flags |= _re.IGNORECASE
+                if names - {'IGNORECASE', 'I', 're'}:
+                    raise AnalysisError('is_int: regular expression flags {} not understood'.format(sorted(names)))
+    if pat is None:
+        raise AnalysisError('is_int decides neither with int(text, 0) nor with a regular expression constant (not understood)')
+    rx = _re.compile(pat[0], flags)
+    wrong = []
+    for s_ in NUMERIC_SPELLINGS:
+        try:
+            int(s_, 0)
+            want = True
+        except ValueError:
+            want = False
+        got = getattr(rx, pat[1])(s_) is not None
+        if got != want:
+            wrong.append((s_, want))
+    if wrong:
+        s_, want = wrong[0]
+        rep.fail(Finding('R13.7.numeric-literals', 'is_int', pat[2],
+                         'the pattern {!r} {} {!r}, which int(text, 0) {}: the same number spelled that way is treated differently ({} such spellings in the sample)'.format(
+                             pat[0], 'rejects' if want else 'accepts', s_, 'accepts' if want else 'rejects', len(wrong)), line=pat[2].lineno), instance='numeric literal spellings')
+        return
+    raise AnalysisError('is_int uses the pattern {!r}: it agrees with int(text, 0) on the sample spellings, equivalence not established'.format(pat[0]))
+
+
+def parents_of_node(node):
+    p = getattr(node, '_parent', None)
+    while p is not None:
+        yield p
+        p = getattr(p, '_parent', None)
+
+
+def run(repo, tier):
+    facts = Facts(repo.asm)
+    rep = Report('C13', LEVEL,
+                 'Structural clauses of spelling invariance: the REGISTERS table maps number, numeric string, xN and every ABI alias of '
+                 'register N to N (and nothing else); in each parse branch that accepts both, `imm(reg)` and `reg, imm` deliver the same '
+                 'roles to the same constructor parameters (token-provenance dataflow) and every load / store / jalr takes both spellings; the '
+                 'characters consumed between tokens (regex AST of the split pattern plus replacements made before it) are exactly whitespace '
+                 'and commas; on the dataflow from the line text to the returned token list (followed through locals, helpers, precompiled '
+                 'patterns, partition / re.sub / replace / strip, comprehensions, filter(), accumulator loops) the comment is removed before the '
+                 'split, empty tokens are dropped and leading / trailing whitespace never yields a token; every Line is numbered by its position '
+                 'in the unfiltered list of physical lines; every token line handed to parse_item on the way from assemble is known to have '
+                 'tokens; lookup_register keys the table with int(operand, 0) where that succeeds and the operand itself otherwise.')
+    rep.trusted_base = ['CPython ast and re._parser', 'bbverif.wiring token provenance', 'bbverif.lexrules abstract values']
+    rep.not_decided = ['equality of whole binaries under arbitrary combinations of rewrites, in particular the interaction of the special-cased string / error lexing '
+                       'with indentation and comments', 'integers spelled in forms only eval or only int(., 0) accepts']
+    encprops.check_registers(rep, facts, 'R13.1.registers')
+    check_base_offset(rep, facts)
+    # the front end, decided on the dataflow of the line text / token lists / line objects / register operand (lexrules)
+    lexrules.check_lexer(rep, facts)
+    skips_blank = lexrules.check_reader(rep, facts)
+    lexrules.check_handover(rep, facts, skips_blank)
+    lexrules.check_register_numbers(rep, facts)
+    check_numeric_literal_test(rep, facts)
+    try:
+        shared_engine_rules(rep, repo, facts)
+    except AnalysisError as e:
+        # the shared encoder / compression engines cannot follow the tree: that leaves R13.2.wiring / R13.6 undecided, but it must
+        # not mask a violation that the rules above have already established (same discipline as the deferred instance floors)
+        if not rep.findings:
+            raise
+        rep.note('R13.2.wiring / R13.6 not decided ({}); the violations found by the other rules stand on their own'.format(str(e)[:160]))
     rep.floor('register spellings checked', 129)
     rep.floor('parse paths analysed', 30)
+    # semantic floors of the front-end rules: at least one path of each kind was positively understood
+    rep.floor('lexer paths analysed', 1)
+    rep.floor('Line constructions analysed', 1)
+    rep.floor('parse_item hand-overs analysed', 1)
+    rep.floor('register table lookups analysed', 1)
     return rep
